@@ -163,3 +163,71 @@ Example C18_examples :
    judge_1801 ds 0 0 [123; 34; 97; 34; 58; 110; 117; 108; 108; 125] [(1, []); (1, []); (1, [])] (0, [0]) = VKnown 1801 /\
    judge_1801 ds 0 0 [123; 34; 97; 34; 58; 34; 120; 34; 125] [(1, []); (1, []); (1, [])] (0, [0]) = VBad 3 []).
 Proof. vm_compute. repeat split; reflexivity. Qed.
+
+(* ================================================================= dec2f64 / dec2f32 are correctly rounded (proved) ===========
+   The number reader every float comparison of C03 / C08 / C13 / C18 judges the implementation's lexemes with is no longer a
+   trusted definition: for EVERY decimal (sign, mantissa, power of ten) its result satisfies the decidable specification
+   f64_rounds_to / f32_rounds_to (round to nearest, ties to the even pattern, subnormals, overflow to the infinity pattern, zero
+   with its sign), the specification determines the bits, and the specification's two shortcuts (far too small -> zero, far too
+   large -> infinity) follow from its midpoint rule.  Generic proof over the format (p, emin): proofs/FpRound.v, FpRoundPure.v. *)
+From DG Require FpExact FpRound FpRoundPure Dec2FloatCorrect.
+
+Theorem C18_dec2f64_correct : forall d, f64_rounds_to d (dec2f64 d) = true.
+Proof. exact Dec2FloatCorrect.dec2f64_correct. Qed.
+Print Assumptions C18_dec2f64_correct.
+
+Theorem C18_dec2f64_unique : forall d b, 0 <= b < 2 ^ 64 -> f64_rounds_to d b = true -> b = dec2f64 d.
+Proof. exact Dec2FloatCorrect.dec2f64_unique. Qed.
+Print Assumptions C18_dec2f64_unique.
+
+Theorem C18_dec2f32_correct : forall d, f32_rounds_to d (dec2f32 d) = true.
+Proof. exact Dec2FloatCorrect.dec2f32_correct. Qed.
+Print Assumptions C18_dec2f32_correct.
+
+Theorem C18_dec2f32_unique : forall d b, 0 <= b < 2 ^ 32 -> f32_rounds_to d b = true -> b = dec2f32 d.
+Proof. exact Dec2FloatCorrect.dec2f32_unique. Qed.
+Print Assumptions C18_dec2f32_unique.
+
+(* the comparison the checkers use ("this lexeme denotes exactly these bits") is exactly "the reader returns these bits" *)
+Theorem C18_lex_is_f64_iff : forall l b, lex_is_f64 l b = true <-> lex2f64 l = Some b.
+Proof. exact Dec2FloatCorrect.lex_is_f64_iff. Qed.
+Print Assumptions C18_lex_is_f64_iff.
+
+Theorem C18_lex2f32_is_f32 : forall l b, lex2f32 l = Some b -> lex_is_f32 l b = true.
+Proof. exact Dec2FloatCorrect.lex2f32_is_f32. Qed.
+Print Assumptions C18_lex2f32_is_f32.
+
+(* generic statements: any format with 2 <= p, emin <= 0, 1 <= 2 - emin - p *)
+Theorem C18_fp_mag_correct : forall p emin, 2 <= p -> emin <= 0 -> 1 <= 2 - emin - p ->
+  forall m e, fp_rounds_to p emin m e (fp_mag p emin m e) = true.
+Proof. exact FpRound.fp_mag_correct. Qed.
+Print Assumptions C18_fp_mag_correct.
+
+Theorem C18_fp_rounds_to_unique : forall p emin, 2 <= p -> emin <= 0 -> 1 <= 2 - emin - p ->
+  forall m e b, fp_rounds_to p emin m e b = true -> b = fp_mag p emin m e.
+Proof. exact FpRound.fp_rounds_to_unique. Qed.
+Print Assumptions C18_fp_rounds_to_unique.
+
+(* the shortcuts of the specification are redundant: it equals the pure midpoint rule *)
+Theorem C18_rounds_to_shortcuts_sound : forall p emin, 2 <= p -> emin <= 0 -> 1 <= 2 - emin - p ->
+  forall m e b, fp_rounds_to p emin m e b = FpRoundPure.fp_rounds_to_pure p emin m e b.
+Proof. exact FpRoundPure.fp_rounds_to_pure_eq. Qed.
+Print Assumptions C18_rounds_to_shortcuts_sound.
+
+(* ... and the midpoint rule in plain integer arithmetic (x = N/D; Wb b = mantissa * 2^(exponent - emin), strictly increasing) *)
+Theorem C18_rounds_to_arith : forall p emin, 2 <= p -> emin <= 0 -> 1 <= 2 - emin - p -> forall m e b,
+  0 < m -> 0 <= b <= FpRound.inf_bits p emin ->
+  fp_rounds_to p emin m e b =
+  (if b =? 0 then true
+   else match FpRound.X emin (FpRound.decN m e) ?= (FpRound.Wb p emin (b - 1) + FpRound.Wb p emin b) * FpRound.decD e with
+        | Gt => true | Eq => Z.even b | Lt => false end) &&
+  (if b =? FpRound.inf_bits p emin then true
+   else match FpRound.X emin (FpRound.decN m e) ?= (FpRound.Wb p emin b + FpRound.Wb p emin (b + 1)) * FpRound.decD e with
+        | Lt => true | Eq => Z.even b | Gt => false end).
+Proof. exact FpRoundPure.fp_rounds_to_arith. Qed.
+Print Assumptions C18_rounds_to_arith.
+
+Theorem C18_pattern_values_increase : forall p emin, 2 <= p -> forall b, 0 <= b ->
+  FpRound.Wb p emin (b + 1) = FpRound.Wb p emin b + FpRound.Gb p emin b /\ 0 < FpRound.Gb p emin b.
+Proof. intros p emin Hp b Hb. split; [apply FpRound.Wb_succ | apply FpRound.Gb_pos]; assumption. Qed.
+Print Assumptions C18_pattern_values_increase.
